@@ -86,16 +86,4 @@ def mulUnitSpec (lo hi : Int) (m : Nat) (x : Int) : Option Int :=
 /-- to a coarser unit: divide truncating toward zero (always representable) -/
 def divUnitSpec (m : Nat) (x : Int) : Option Int := some (divTrunc x m)
 
-/-! ### text -/
-
-/-- decimal digits of a natural number, most significant first (`0 ↦ "0"`) -/
-def digitsAux : Nat → Nat → List Nat → List Nat
-  | 0, _, acc => acc
-  | fuel + 1, n, acc => if n < 10 then n :: acc else digitsAux fuel (n / 10) (n % 10 :: acc)
-
-def digits (n : Nat) : List Nat := digitsAux (n + 1) n []
-
-/-- value of a digit list -/
-def ofDigits (ds : List Nat) : Nat := ds.foldl (fun acc d => acc * 10 + d) 0
-
 end ArrowModel.C13
